@@ -79,13 +79,15 @@ class InputWorld:
                 fl.append(s)
             sdl.append("input %s {\n%s\n}" % (name, "\n".join(fl)))
         sdl.append("directive @guard on ARGUMENT_DEFINITION")
-        q = ["  s: String", "  gd(a: Int @guard, b: Int = 5): String"]
+        sdl.append("directive @guardin on INPUT_FIELD_DEFINITION")
+        sdl.append("input Ing { v: Int @guardin  w: Int = 2 }")
+        q = ["  s: String", "  gd(a: Int @guard, b: Int = 5): String", "  eg(a: Ing): String"]
         for i, ty in enumerate(self.types, 1):
             q.append("  e%d(a: %s): String" % (i, render.typeref(ty)))
             q.append("  d%d(a: %s = %s): String" % (i, render.typeref(ty), lit_text(self.goods[i - 1]["lit"])))
             sdl.append("directive @p%d(a: %s) on FIELD" % (i, render.typeref(ty)))
         sdl.append("type Query {\n%s\n}" % "\n".join(q))
-        sdl.append("type Subscription {\n%s\n}" % "\n".join("  u%d(a: %s): String" % (i, render.typeref(ty)) for i, ty in enumerate(self.types, 1)))
+        sdl.append("type Subscription {\n  ug(a: Ing): String\n%s\n}" % "\n".join("  u%d(a: %s): String" % (i, render.typeref(ty)) for i, ty in enumerate(self.types, 1)))
         self.sdl = "\n".join(sdl)
 
         @t.Resolver("Query.s", schema_name=self.sn)
@@ -100,6 +102,30 @@ class InputWorld:
                 if v == 13 and not isinstance(v, bool):
                     raise ValueError("guard refuses 13")
                 return v
+
+        @t.Directive("guardin", schema_name=self.sn)
+        class GuardIn:
+            """an input-field directive whose hook raises a plain Python exception for the value 13 (a validation the type system cannot express)"""
+            async def on_post_input_coercion(self, directive_args, next_directive, parent_node, value, ctx):
+                v = await next_directive(parent_node, value, ctx)
+                if v == 13 and not isinstance(v, bool):
+                    raise ValueError("guardin refuses 13")
+                return v
+
+        @t.Resolver("Query.eg", schema_name=self.sn)
+        async def reg(parent, args, ctx, info):
+            w.calls.append(("eg", info.path.as_list()[-1], snapshot_and_scribble(args)))
+            return "ok"
+
+        @t.Subscription("Subscription.ug", schema_name=self.sn)
+        async def srcg(parent, args, ctx, info):
+            w.calls.append(("ug-source", info.path.as_list()[-1], snapshot_and_scribble(args)))
+            yield {"ug": "ev"}
+
+        @t.Resolver("Subscription.ug", schema_name=self.sn)
+        async def rug(parent, args, ctx, info):
+            w.calls.append(("ug", info.path.as_list()[-1], snapshot_and_scribble(args)))
+            return "ok"
 
         @t.Resolver("Query.gd", schema_name=self.sn)
         async def rgd(parent, args, ctx, info):
